@@ -1087,7 +1087,9 @@ class Py2Cpp(ITranspiler):
 			return self.render(node, f'{node.classification}/{spec.name}', vars=func_call_vars)
 		elif spec == FuncCallSpec.Tags.len:
 			var_type = self.to_accessible_name(cast(IReflection, context))
-			return self.render(node, f'{node.classification}/{spec.name}', vars={**func_call_vars, 'var_type': var_type})
+			size = self.render(node, f'{node.classification}/{spec.name}', vars={**func_call_vars, 'var_type': var_type})
+			# XXX size()は符号なし整数のため、演算のオペランドとして使われる場合は符号付き整数に変換(`len(x) - 1 < 0`等)
+			return f'static_cast<{int.__name__}>({size})' if node.parent.is_a(defs.Operator) else size
 		elif spec == FuncCallSpec.Tags.print:
 			# XXX 愚直に対応すると実引数の型推論のコストが高く、その割に出力メッセージの柔軟性が下がりメリットが薄いため、関数名の置き換えのみを行う簡易的な対応とする
 			return self.render(node, f'{node.classification}/{spec.name}', vars=func_call_vars)
